@@ -22,7 +22,7 @@ SPEC = {'id': 'C20',
      {'pkg': 'server/lib', 'test': 'TestVerifC05Layer$', 'race': True, 'race_only': True, 'tier': 'quick', 'checklinkname': True, 'timeout': '15m'},
      {'pkg': 'server/lib', 'test': 'TestVerifC18ServerLib', 'race': True, 'race_only': True, 'tier': 'quick', 'checklinkname': True, 'timeout': '15m'},
      {'pkg': 'client/lib', 'test': 'TestVerifC01Stack$', 'race': True, 'race_only': True, 'tier': 'quick', 'checklinkname': True, 'timeout': '15m'},
-     {'pkg': 'client/lib', 'test': 'TestVerifC15', 'race': True, 'race_only': True, 'tier': 'quick', 'checklinkname': True, 'timeout': '15m'},
+     {'pkg': 'client/lib', 'test': 'TestVerifC15$', 'race': True, 'race_only': True, 'tier': 'quick', 'checklinkname': True, 'timeout': '15m'},
      {'pkg': 'proxy/lib', 'test': 'TestVerifC16', 'race': True, 'race_only': True, 'tier': 'quick', 'checklinkname': True, 'timeout': '15m'},
  ],
  'optional_overlay': {'broker/zz_verif_core_internals_test.go': 'broker_core_internals_test.go'},
